@@ -176,7 +176,7 @@ func (w *goneRW) Write(b []byte) (int, error) {
 	return n, nil
 }
 
-var traceChunks = []string{"<script>", "a&b", `"q"`, "'s'", ">", "plain", "<b>x</b>", "é", "&amp;", "line\r\nbreak"}
+var traceChunks = []string{"nul\x00byte", "\x00", "bad\xffutf8", "\u2028", "<script>", "a&b", `"q"`, "'s'", ">", "plain", "<b>x</b>", "é", "&amp;", "line\r\nbreak"}
 
 func c18Helper(c *Ctx) {
 	r := c.R
